@@ -4,7 +4,7 @@ import gen_http as G
 
 HARNESS = "rx_driver"
 LEAN_MODULES = ["ViaProofs.C08", "ViaProofs.Roundtrip"]
-LEMMA_MODULES = ['ViaProofs.Trans.RL', 'ViaProofs.Trans.SL', 'ViaProofs.Trans.FL', 'ViaProofs.Trans.CH', 'ViaProofs.Trans.MH', 'ViaProofs.Trans.CK', 'ViaProofs.Trans.RQ', 'ViaProofs.Trans.RR', 'ViaProofs.Trans.RS']
+LEMMA_MODULES = ['ViaProofs.Trans.RL', 'ViaProofs.Trans.SL', 'ViaProofs.Trans.FL', 'ViaProofs.Trans.CH', 'ViaProofs.Trans.MH', 'ViaProofs.Trans.CK', 'ViaProofs.Trans.RQ', 'ViaProofs.Trans.RR', 'ViaProofs.Trans.RS', 'ViaProofs.Trans.MHA', 'ViaProofs.Trans.RQP']
 REQUIRED_THEOREMS = ['Via.hex_roundtrip', 'Via.dec_roundtrip', 'Via.std_names_parse', 'Via.own_headers_parse', 'Via.chunk_header_roundtrip',
                      'Via.RT.requestLine_roundtrip', 'Via.RT.headerLine_roundtrip', 'Via.RT.headers_roundtrip', 'Via.RT.request_roundtrip',
                      'Via.RT.statusLine_roundtrip', 'Via.RT.response_roundtrip', 'Via.RT.response_roundtrip_nocontent',
